@@ -54,7 +54,7 @@ class C11(InterpProp):
             "action events of the simulated UMIM client; executed live once (twin A; serialisation is also attempted after every step) and then once per (cut point, fault) with fault in "
             "{restore, age 5.1 s / 60 s / 1 h, age+restore}. evaluations = executions; non-trivial = faulted executions whose cut state held >= 1 finished flow instance or a non-string variable; "
             "distinct = distinct (cut state signature, fault kind)")
-    expected_probes = ["api_turn_boundaries_restored", "api_aged_between_turns", "cut_restored", "cut_aged", "cleanup_removed_flows_in_live_run", "cleanup_removed_flows_in_twin_b", "state_held_regex", "state_held_set", "state_held_reference", "cut_with_action_in_flight"]
+    expected_probes = ["api_turn_boundaries_restored", "api_restored_into_fresh_instance", "api_aged_between_turns", "cut_restored", "cut_aged", "cleanup_removed_flows_in_live_run", "cleanup_removed_flows_in_twin_b", "state_held_regex", "state_held_set", "state_held_reference", "cut_with_action_in_flight"]
     exhaustive_parts = ["every cut point of every sampled history (restore fault); ageing faults at every cut in the thorough tier, at a seeded third of the cuts in quick"]
     quick_runs = 240
     thorough_runs = 12000
@@ -312,16 +312,23 @@ def execute_api(sc):
         for k in range(1, n):
             if k % sc.get("age_every", 1) == d.index(sc.get("age_every", 1), "agephase"):
                 cuts.append([k, "age:%s+restore" % d.choice(AGES, "age", k)])
+        # a crash-restart loses the serving instance too: every second cut serves the turns after the first with a NEW LLMRails
+        # instance built from the same configuration (only the returned JSON state survives)
+        cuts = [c + [i % 2 == 1] for i, c in enumerate(cuts)]
     else:
         cuts = [list(c) for c in sc["cuts"]]
-    for k, fault in cuts:
+    for cut in cuts:
+        k, fault = cut[0], cut[1]
+        fresh = bool(cut[2]) if len(cut) > 2 else False
         idle = None
         if fault.startswith("age"):
             delta = float(fault.split(":")[1].split("+")[0])
             idle = (lambda kk, dd: (lambda c, t: dd if t == kk else 0.0))(k, delta)
             out.fault("clock_jump")
         out.fault("crash_restart", n - 1)
-        wB, recsB = RR.run_conversations(sc, state_mode="json", idle_fn=idle)
+        if fresh:
+            out.probe("api_restored_into_fresh_instance")
+        wB, recsB = RR.run_conversations(sc, state_mode="json", idle_fn=idle, fresh_instance=fresh)
         out.evaluations += 1
         got = _api_turns(recsB)
         tr.log("api-cut", k, fault, [g[0] for g in got])
@@ -336,11 +343,11 @@ def execute_api(sc):
                 continue
             if b is not None and b[0] != "ok":
                 out.violate("continuation-raised", "%s:api:%s" % (kindsig, b[3]), "generate_async(state=<returned JSON state>)%s raised %s in turn %d (%r); with the live state object the turn was served: %r"
-                            % (" after resting %s" % fault if idle else "", b[3], i, recsB[i].exc, a[2]), pin={"cuts": [[k, fault]]})
+                            % (" after resting %s" % fault if idle else "", b[3], i, recsB[i].exc, a[2]), pin={"cuts": [[k, fault, fresh]]})
             else:
                 what = "reply" if b is None or a[2] != b[2] or a[1] != b[1] else "peer-calls"
                 out.violate("behaviour-differs", "%s:api-%s" % (kindsig, what), "turn %d through generate_async with the returned JSON state%s: %s\n   live state object: %s" % (i, " after resting %s" % fault if idle else "", _short_turn(b), _short_turn(a)),
-                            pin={"cuts": [[k, fault]]})
+                            pin={"cuts": [[k, fault, fresh]]})
             break
     out.digest = tr.digest()
     out.interleaving = ("api", sc["mode"], n)
